@@ -218,4 +218,20 @@ PROPS = {
             rap("mux_sections", "^TestC09Mux$", 1500, 15000, 2, 16),
         ],
     },
+    "C02": {
+        "level": "exploration",
+        "level_text": "generated stream models packetised by an independent reference multiplexer at arbitrary split points and interleavings; "
+                      "the expected per-PID output is computed from the model; plus a deterministic sweep moving a split point through every "
+                      "position of one unit of each kind; bytes consumed from the reader are observed for the PAT/PMT clause",
+        "level_note": "trusts harness/ref (TS/PES/section encoders, packetiser) and the stated well-formedness preconditions (DESIGN 2.2): every "
+                      "section of a unit starts in the unit's first packet, PAT before PMT PIDs, PIDs keep their role",
+        "technique": "rapid property test against a reference multiplexer/demultiplexer model + deterministic split-point sweep",
+        "rule": "rapid-generated stream models; non-trivial = a unit over >= 3 packets, a multi-section unit and >= 3 PIDs; distinct by stream bytes; "
+                "sweep cases are distinct by construction",
+        "assumptions": ["delivery order across different PIDs is not asserted (units pending at end of stream are drained per PID)"],
+        "units": [
+            rap("streams", "^TestC02Streams$", 2500, 25000, 4, 16),
+            det("splits", "^TestC02Splits$"),
+        ],
+    },
 }
